@@ -538,6 +538,66 @@ pub fn run(rep: &mut Report, backend: Bk, thorough: bool) {
             }
         }
     }
+    // group-data fields one at a time, on a group that holds a full image record: the operation changes the field it names in
+    // the group data (sender after merging, every receiver after processing) and none of the others (seeded change C05-11: naming
+    // a new image hash alone wipes key, nonce and upload key)
+    {
+        let ext_of = |c: &Client| -> Option<serde_json::Map<String, Value>> {
+            let o = c.group_obs(&gid)?;
+            serde_json::from_str::<Value>(&o.mls?.ext).ok()?.as_object().cloned()
+        };
+        let changed = |a: &serde_json::Map<String, Value>, b: &serde_json::Map<String, Value>| -> Vec<String> {
+            let mut v: Vec<String> = a.keys().chain(b.keys()).filter(|k| a.get(*k) != b.get(*k)).cloned().collect();
+            v.sort();
+            v.dedup();
+            v
+        };
+        let full = || NostrGroupDataUpdate::new().image_hash(Some([0x31; 32])).image_key(Some([0x32; 32])).image_nonce(Some([0x33; 12])).image_upload_key(Some([0x34; 32]));
+        let ops: Vec<(&str, NostrGroupDataUpdate, Vec<&str>)> = vec![
+            ("name", NostrGroupDataUpdate::new().name("renamed-alone"), vec!["name"]),
+            ("description", NostrGroupDataUpdate::new().description("described-alone"), vec!["description"]),
+            ("image_hash", NostrGroupDataUpdate::new().image_hash(Some([0x41; 32])), vec!["image_hash"]),
+            ("image_key", NostrGroupDataUpdate::new().image_key(Some([0x42; 32])), vec!["image_key"]),
+            ("image_nonce", NostrGroupDataUpdate::new().image_nonce(Some([0x43; 12])), vec!["image_nonce"]),
+            ("image_upload_key", NostrGroupDataUpdate::new().image_upload_key(Some([0x44; 32])), vec!["image_upload_key"]),
+            ("image_hash-same-value", NostrGroupDataUpdate::new().image_hash(Some([0x31; 32])), vec![]),
+        ];
+        for (label, upd, want) in ops {
+            // sender and receivers first take the full image record (one honest commit), then the single-field update
+            let a = idle("A");
+            let Ok(r0) = with_mdk!(a, m => m.update_group_data(&gid, full())) else {
+                rep.outcome("send:full-image:refused");
+                continue;
+            };
+            let _ = with_mdk!(a, m => m.merge_pending_commit(&gid));
+            let Some(before) = ext_of(&a) else { continue };
+            let Ok(r1) = with_mdk!(a, m => m.update_group_data(&gid, upd)) else {
+                rep.outcome(&format!("send:single-field:{label}:refused"));
+                continue;
+            };
+            let _ = with_mdk!(a, m => m.merge_pending_commit(&gid));
+            let Some(after) = ext_of(&a) else { continue };
+            let ch = changed(&before, &after);
+            rep.case(&format!("send|single-field|{label}|{}", ch.join("+")));
+            rep.evaluations += 1;
+            if ch != want {
+                rep.finding(format!("C05|admin-operation-changed-other-than-it-names|update_group_data({label})|changed={}", ch.join("+")), format!("admin A updates {label} alone on a group with a full image record: the group data changed in [{}] instead of {want:?}", ch.join(", ")), json!({"before": before, "after": after, "backend": format!("{backend:?}")}));
+            }
+            for (rrole, rname) in &receivers {
+                let rc = idle(rname);
+                let _ = rc.process(&r0.evolution_event);
+                let Some(rb) = ext_of(&rc) else { continue };
+                let rr = rc.process(&r1.evolution_event);
+                let Some(ra) = ext_of(&rc) else { continue };
+                rep.case(&format!("send-recv|single-field|{label}|{rrole}|{}", result_kind(&rr)));
+                rep.evaluations += 1;
+                let rch = changed(&rb, &ra);
+                if result_kind(&rr) == "Commit" && rch != want {
+                    rep.finding(format!("C05|admin-operation-changed-other-than-it-names|update_group_data({label})|changed={}", rch.join("+")), format!("receiver {rname}: A's update of {label} alone changed [{}]", rch.join(", ")), json!({"backend": format!("{backend:?}")}));
+                }
+            }
+        }
+    }
     let _ = b_rename;
     rep.states += 4;
     rep.transitions += rep.evaluations;
